@@ -74,6 +74,14 @@ impl<'a> Ctx<'a> {
             .join(", ")
     }
     pub fn describe(&self) -> String {
+        let order = ORDER.with(|o| o.borrow().clone());
+        let base = self.describe_values();
+        match order {
+            Some(k) => format!("{base}; setter / transforming calls applied in the order given by keys {:?}", k),
+            None => base,
+        }
+    }
+    fn describe_values(&self) -> String {
         match &self.hist {
             None => self.fmt_vals(self.vals),
             Some(h) => format!(
@@ -99,6 +107,44 @@ pub fn as_count(x: f64) -> usize {
     }
 }
 
+thread_local! {
+    /// order keys of the current case (None = canonical order) and whether they are in force
+    static ORDER: std::cell::RefCell<Option<Vec<u16>>> = const { std::cell::RefCell::new(None) };
+    static ORDER_ON: std::cell::Cell<bool> = const { std::cell::Cell::new(true) };
+}
+
+/// set by `check_case` for every case
+pub fn set_order(keys: Option<Vec<u16>>) {
+    ORDER.with(|o| *o.borrow_mut() = keys);
+    ORDER_ON.with(|f| f.set(true));
+}
+pub fn has_order() -> bool {
+    ORDER.with(|o| o.borrow().is_some())
+}
+fn canonically<T>(f: impl FnOnce() -> T) -> T {
+    let before = ORDER_ON.with(|x| x.replace(false));
+    let r = f();
+    ORDER_ON.with(|x| x.set(before));
+    r
+}
+
+/// Applies the setter / builder-transforming calls `steps` to `b`: in the written (canonical) order, or — for an
+/// order case — in the permutation decoded from the case's keys (stable sort of the step indices by key).
+pub fn apply<P>(b: P, v: &[f64], steps: &[&dyn Fn(P, &[f64]) -> P]) -> P {
+    let on = ORDER_ON.with(|x| x.get());
+    let perm: Vec<usize> = match ORDER.with(|o| o.borrow().clone()) {
+        Some(keys) if on => vengine::gen::perm_from_keys(&keys, steps.len()),
+        _ => (0..steps.len()).collect(),
+    };
+    let mut b = b;
+    for i in perm {
+        if let Some(s) = steps.get(i) {
+            b = s(b, v);
+        }
+    }
+    b
+}
+
 /// How one builder type is constructed, (re-)configured and copied.
 pub struct Glue<'a, P> {
     pub cx: &'a Ctx<'a>,
@@ -119,9 +165,13 @@ pub struct Glue<'a, P> {
 }
 
 impl<'a, P: ParamGuard> Glue<'a, P> {
-    /// a builder configured directly with the case's values
+    /// a builder configured directly with the case's values (setter calls in the case's order)
     pub fn fresh(&self) -> P {
         (self.set)((self.base)(self.cx.vals), self.cx.vals)
+    }
+    /// the reference: a builder configured directly with the case's values, setter calls in the canonical order
+    pub fn reference(&self) -> P {
+        canonically(|| self.fresh())
     }
     /// a fresh builder with the *earlier* assignment of a history case
     pub fn fresh_first(&self) -> Option<P> {
@@ -196,8 +246,10 @@ where
     let v = Verdict { ok: first.is_ok(), err: first.clone().err().unwrap_or_default() };
 
     // history: what does a fresh builder with the same values say?
-    let fresh_verdict = if cx.hist.is_some() {
-        let f = g.fresh();
+    let compare = cx.hist.is_some() || has_order();
+    let kind = if cx.hist.is_some() { "history" } else { "order" };
+    let fresh_verdict = if compare {
+        let f = g.reference();
         obs.call(&cx.sig("check_ref"), || f.check_ref().map(|_| ()).map_err(|e| e.to_string()))
     } else {
         None
@@ -239,17 +291,22 @@ where
 
     // history: the re-configured builder must be indistinguishable from a fresh one
     if let (Some(fr), false) = (&fresh_verdict, stale_hit) {
-        obs.ensure(fr.is_ok() == v.ok, &cx.sig("history:verdict-differs-from-fresh-builder"), || {
-            format!("re-configured builder: check_ref = {:?}; fresh builder with the same values: {:?} ({})", first, fr, cx.describe())
+        obs.ensure(fr.is_ok() == v.ok, &cx.sig(&format!("{kind}:verdict-differs-from-fresh-builder")), || {
+            format!(
+                "builder under test: check_ref = {:?}; fresh builder with the same values, canonical setter order: {:?} ({})",
+                first,
+                fr,
+                cx.describe()
+            )
         });
         if let (Err(a), Err(b)) = (&first, fr) {
-            obs.ensure(a == b, &cx.sig("history:error-differs-from-fresh-builder"), || {
+            obs.ensure(a == b, &cx.sig(&format!("{kind}:error-differs-from-fresh-builder")), || {
                 format!("re-configured builder fails with \"{a}\", a fresh builder with the same values with \"{b}\" ({})", cx.describe())
             });
         }
-        let f = g.fresh();
+        let f = g.reference();
         if let (Some(eq), Ok(cp), Ok(cf)) = (same_c, p.check_ref(), f.check_ref()) {
-            obs.ensure(eq(cp, cf), &cx.sig("history:checked-value-differs-from-fresh-builder"), || {
+            obs.ensure(eq(cp, cf), &cx.sig(&format!("{kind}:checked-value-differs-from-fresh-builder")), || {
                 format!("checked parameters of the re-configured builder differ from those of a fresh builder ({})", cx.describe())
             });
         }
@@ -262,7 +319,7 @@ where
         });
     }
     if let Some(eq) = same_p {
-        let fresh = g.fresh();
+        let fresh = g.reference();
         obs.ensure(eq(&p, &fresh), &cx.sig("check_ref:changed-builder"), || {
             format!("after check_ref the builder differs from a fresh builder with the same values ({})", cx.describe())
         });
@@ -396,7 +453,7 @@ pub fn fit_core<P, T, E>(
     }
     let a = run(|| on_p(hb));
     let b = run(|| {
-        let checked = g.fresh().check().map_err(E::from)?;
+        let checked = g.reference().check().map_err(E::from)?;
         on_c(&checked)
     });
     let sig = cx.sig(&format!("{entry}:valid-differs-from-checked"));
